@@ -74,7 +74,21 @@ MUTANTS = [
       "        self.last_complete_prefix_index = -1\n", "ANALYSIS-ERROR"),
     M("save-next-prefix-name", F,
       "            last_complete_prefix = self.prefixes[lcpi]\n", "            last_complete_prefix = self.prefixes[lcpi + 1]\n", "C27.2"),
+    M("half-the-prefixes", F, "                         for i in range(2**10)]", "                         for i in range(2**9)]", "C27.2"),
+    M("stale-list-after-listdir-error", F,
+      "                except EnvironmentError:\n                    buckets = []\n",
+      "                except EnvironmentError:\n                    pass\n", "C27.2"),
+    M("cached-list-not-rebound", F,
+      "            if i == self.bucket_cache[0]:\n                buckets = self.bucket_cache[1]\n            else:\n",
+      "            if i != self.bucket_cache[0]:\n", "C27.2"),
     # ---- C27.3 saving / re-arming
+    M("startservice-no-upcall", F,
+      "        self.timer = reactor.callLater(self.slow_start, self.start_slice)\n        service.MultiService.startService(self)\n",
+      "        self.timer = reactor.callLater(self.slow_start, self.start_slice)\n", "C27.3"),
+    M("loaded-state-discarded", F,
+      "        state.setdefault(\"current-cycle-start-time\", time.time()) # approximate\n        self.state = state\n",
+      "        state.setdefault(\"current-cycle-start-time\", time.time()) # approximate\n        self.state = {\"version\": 1, \"last-cycle-finished\": None, \"current-cycle\": None,\n                      \"last-complete-prefix\": None, \"last-complete-bucket\": None}\n",
+      "C27.3"),
     M("save-skipped-on-timeslice", F,
       "            finished_cycle = True\n        except TimeSliceExceeded:\n            finished_cycle = False\n        self.save_state()\n",
       "            finished_cycle = True\n            self.save_state()\n        except TimeSliceExceeded:\n            finished_cycle = False\n",
@@ -107,6 +121,7 @@ MUTANTS = [
     M("move-wrong-direction", F,
       "        fileutil.move_into_place(tmpfile.path, self._path.path)\n",
       "        fileutil.move_into_place(self._path.path, tmpfile.path)\n", "C27.4"),
+    M("state-not-written-as-json", F, "        data = json.dumps(js)\n", "        data = repr(js)\n", "C27.4"),
     # ---- C27.5 cycle counter
     M("cycle-number-not-incremented", F,
       "                state[\"current-cycle\"] = state[\"last-cycle-finished\"] + 1\n",
